@@ -19,13 +19,17 @@ def _arr(a: np.ndarray):
     return ("nd", a.dtype.str, a.shape, b)
 
 
-def snap(v, depth: int = 0):
-    """Snapshot of everything the library may not modify in `v` (recursive over __dict__)."""
+def snap(v, depth: int = 0, _path=()):
+    """Snapshot of everything the library may not modify in `v` (recursive over __dict__; reference cycles such as
+    t._inverse._inverse is t are cut at the first repetition on the current path)."""
     if isinstance(v, np.ndarray):
         return _arr(v)
     if isinstance(v, Tensor):
+        if id(v) in _path or depth > 12:
+            return ("cycle", type(v).__name__)
         d = v.__dict__
-        return ("T", type(v).__name__, tuple((k, snap(d[k], depth + 1)) for k in sorted(d)))
+        pth = _path + (id(v),)
+        return ("T", type(v).__name__, tuple((k, snap(d[k], depth + 1, pth)) for k in sorted(d)))
     if v is None or isinstance(v, (bool, int, float, complex, str, bytes, np.generic)):
         return ("s", type(v).__name__, repr(v))
     if isinstance(v, (set, frozenset)):
@@ -36,11 +40,11 @@ def snap(v, depth: int = 0):
     if isinstance(v, (list, tuple)):
         if depth > 6:
             return ("o", type(v).__name__)
-        return ("seq", type(v).__name__, tuple(snap(x, depth + 1) for x in v))
+        return ("seq", type(v).__name__, tuple(snap(x, depth + 1, _path) for x in v))
     if isinstance(v, dict):
         if depth > 6:
             return ("o", "dict")
-        items = sorted(((repr(k), snap(x, depth + 1)) for k, x in v.items()), key=lambda kv: kv[0])
+        items = sorted(((repr(k), snap(x, depth + 1, _path)) for k, x in v.items()), key=lambda kv: kv[0])
         return ("dict", tuple(items))
     if isinstance(v, TensorDiagram):
         return ("o", "TensorDiagram")  # mutable by contract; judged by the C05 model, not by O1
@@ -103,14 +107,17 @@ def diff(old, new, path: str = "") -> list[tuple[str, str]]:
 # canonical answers
 
 
-def canon(v, depth: int = 0):
+def canon(v, depth: int = 0, _path=()):
     """Canonical, bit-exact description of a returned value or raised exception."""
     if isinstance(v, BaseException):
         dv = getattr(v, "dependent_values", None)
         return ("exc", type(v).__name__, str(v)[:2000], canon(dv, depth + 1) if dv is not None else None)
     if isinstance(v, Tensor):
+        if id(v) in _path or depth > 12:
+            return ("cycle", type(v).__name__)
         d = v.__dict__
-        extra = tuple((k, canon(d[k], depth + 1)) for k in sorted(d) if k not in ("array",))
+        pth = _path + (id(v),)
+        extra = tuple((k, canon(d[k], depth + 1, pth)) for k in sorted(d) if k not in ("array",))
         return ("T", type(v).__name__, _arr(v.array), extra)
     if isinstance(v, np.ndarray):
         return _arr(v)
@@ -123,7 +130,7 @@ def canon(v, depth: int = 0):
     if isinstance(v, (list, tuple)):
         if depth > 6:
             return ("o", type(v).__name__)
-        return ("seq", type(v).__name__, tuple(canon(x, depth + 1) for x in v))
+        return ("seq", type(v).__name__, tuple(canon(x, depth + 1, _path) for x in v))
     if isinstance(v, TensorDiagram):
         return ("o", "TensorDiagram")
     if v is NotImplemented:
